@@ -35,13 +35,14 @@ def main():
         "setup_cmd": "cd /verif/harness && CARGO_NET_OFFLINE=true cargo build --offline --profile verif --bins",
         "hooks": {
             "guard": "cargo feature `verif-hooks` of the anstream crate",
-            "enable": "harness crates depend on anstream with features = [\"verif-hooks\"] (only the loom harness needs it)",
+            "enable": "the loom harness crate /verif/harness/vloom depends on anstream with features = [\"verif-hooks\"]; no other check needs the hook",
             "baseline_off_cmd": "cd /repo && cargo test --workspace --no-fail-fast --offline",
-            "source_commits": [],
+            "source_commits": ["6aa38fe"],
             "add_only": True,
         },
         "engines": [
             {"name": "vexplore", "path": "/verif/harness/vexplore", "serves_properties": sorted(CHECKS), "kind_free_text": "explicit-state product BFS with exact dedupe, deviation-bounded fault-script enumerator, finite-domain enumerators"},
+            {"name": "loom", "path": "/verif/harness/vloom", "serves_properties": ["C19"], "kind_free_text": "loom 0.7 stateless model checker (DPOR) driving the real anstream code over a loom-mutex sink and the re-targeted colorchoice source"},
             {"name": "vmodel", "path": "/verif/harness/vmodel", "serves_properties": sorted(CHECKS), "kind_free_text": "independent reference models (VT500 parser, RFC 3629, strip mask, SGR machine, colour metric)"},
         ],
         "checks": checks,
